@@ -333,7 +333,8 @@ def opG (eng mode seed tok : String) : String :=
 Actions: `n:i:a:b` `n2:i:a:b` `mk:i:a:b` (construct `D_i`), `cc:i:j` `mc:i:j` (copy / move construction), `ca:i:j`
 `ma:i:j` (copy / move assignment; `ca:i:i` is self-assignment), `sw:i:j`, `d:i:n[:tape]` (n draws from `D_i`), `r:i`,
 `p:i:a:b`, `e:i:j` (`==`, `!=`), `q:i` (`min/max/a/b/operator<<`), `v:k:i` `vm:k:i` (variate / `make_variate` from
-`D_i`), `vp:k:a:b`, `vc:k:l` `vx:k:l` (copy / move construction of a variate), `va:k:l` `vy:k:l` (assignment), `w:k:n[:tape]` (n draws from `V_k`), `g:n[:tape]` (the generator itself).
+`D_i`), `vp:k:a:b` (all on the first generator; `d1` `v1` `vm1` `vp1` `g1`: the same on the second generator, seeded
+with `seed + 1000003`), `vc:k:l` `vx:k:l` (copy / move construction of a variate), `va:k:l` `vy:k:l` (assignment), `w:k:n[:tape]` (n draws from `V_k`), `g:n[:tape]` (the generator itself).
 Result: `ok` followed by one field per observing action. -/
 
 structure SInst (β δ γ : Type) where
@@ -345,7 +346,7 @@ structure SInst (β δ γ : Type) where
   feed : γ → List Nat → γ          -- load the tape of one action (exact pair: nothing to load)
   osText : Bool
 
-inductive Fmt | none | vals (name : String) | raws | eq | look
+inductive Fmt | none | vals (name : String) | eq | look
   deriving DecidableEq
 
 structure PTok (β : Type) where
@@ -354,6 +355,8 @@ structure PTok (β : Type) where
   tape : List Nat
 
 def distSlots : Nat := 4
+/-- the second generator of a script line is seeded with `seed + secondSeedOffset` -/
+def secondSeedOffset : Nat := 1000003
 def varSlots : Nat := 3
 
 def slot? (lim : Nat) (s : String) : Option Nat :=
@@ -395,14 +398,14 @@ def parseTok {β : Type} (rd : String → Option β) (okP : β → β → Bool) 
     else if name = "p" then do
       let i ← slot? distSlots i; let p ← par x y
       some ⟨[.setParam i p], .none, []⟩
-    else if name = "vp" then do
+    else if name = "vp" ∨ name = "vp1" then do
       let k ← slot? varSlots i; let p ← par x y
-      some ⟨[.varP k p], .none, []⟩
-    else if (name = "d" ∨ name = "w") ∧ withTape then do
-      let i ← slot? (if name = "d" then distSlots else varSlots) i
+      some ⟨[.varP k p (name = "vp1")], .none, []⟩
+    else if (name = "d" ∨ name = "d1" ∨ name = "w") ∧ withTape then do
+      let i ← slot? (if name = "w" then varSlots else distSlots) i
       let n ← count? x
       let tape ← tapeOf n (fun s => (rd s).map enc) (some y)
-      some ⟨List.replicate n (if name = "d" then .draw i else .vdraw i), .vals name, tape⟩
+      some ⟨List.replicate n (if name = "w" then .vdraw i else .draw i (name = "d1")), .vals name, tape⟩
     else none
   | [name, i, j] =>
     if name = "cc" ∨ name = "mc" then do
@@ -420,9 +423,9 @@ def parseTok {β : Type} (rd : String → Option β) (okP : β → β → Bool) 
     else if name = "e" then do
       let i ← slot? distSlots i; let j ← slot? distSlots j
       some ⟨[.eq i j], .eq, []⟩
-    else if name = "v" ∨ name = "vm" then do
+    else if name = "v" ∨ name = "vm" ∨ name = "v1" ∨ name = "vm1" then do
       let k ← slot? varSlots i; let i ← slot? distSlots j
-      some ⟨[.varD k i], .none, []⟩
+      some ⟨[.varD k i (name = "v1" ∨ name = "vm1")], .none, []⟩
     else if name = "vc" ∨ name = "vx" then do
       let k ← slot? varSlots i; let l ← slot? varSlots j
       if k = l then none else some ⟨[.varCopy k l false], .none, []⟩
@@ -432,14 +435,14 @@ def parseTok {β : Type} (rd : String → Option β) (okP : β → β → Bool) 
     else if name = "vy" then do
       let k ← slot? varSlots i; let l ← slot? varSlots j
       if k = l then none else some ⟨[.varCopy k l true], .none, []⟩
-    else if (name = "d" ∨ name = "w") ∧ !withTape then do
-      let i ← slot? (if name = "d" then distSlots else varSlots) i
+    else if (name = "d" ∨ name = "d1" ∨ name = "w") ∧ !withTape then do
+      let i ← slot? (if name = "w" then varSlots else distSlots) i
       let n ← count? j
-      some ⟨List.replicate n (if name = "d" then .draw i else .vdraw i), .vals name, []⟩
-    else if name = "g" ∧ withTape then do
+      some ⟨List.replicate n (if name = "w" then .vdraw i else .draw i (name = "d1")), .vals name, []⟩
+    else if (name = "g" ∨ name = "g1") ∧ withTape then do
       let n ← count? i
       let tape ← tapeOf n String.toNat? (some j)
-      some ⟨List.replicate n .raw, .raws, tape⟩
+      some ⟨List.replicate n (.raw (name = "g1")), .vals name, tape⟩
     else none
   | [name, i] =>
     if name = "r" then do
@@ -448,9 +451,9 @@ def parseTok {β : Type} (rd : String → Option β) (okP : β → β → Bool) 
     else if name = "q" then do
       let i ← slot? distSlots i
       some ⟨[.look i], .look, []⟩
-    else if name = "g" ∧ !withTape then do
+    else if (name = "g" ∨ name = "g1") ∧ !withTape then do
       let n ← count? i
-      some ⟨List.replicate n .raw, .raws, []⟩
+      some ⟨List.replicate n (.raw (name = "g1")), .vals name, []⟩
     else none
   | _ => none
 
@@ -460,8 +463,8 @@ def showEvs {β δ γ : Type} (I : SInst β δ γ) (fmt : Fmt) (evs : List (Ev (
   match fmt with
   | .none => ""
   | .vals name =>
-    s!" {name}=" ++ joinOr (evs.filterMap fun e => match e with | .val v => some (showD I.sh v) | _ => none)
-  | .raws => " g=" ++ joinOr (evs.filterMap fun e => match e with | .raw n => some (toString n) | _ => none)
+    s!" {name}=" ++ joinOr (evs.filterMap fun e => match e with
+      | .val v => some (showD I.sh v) | .raw n => some (toString n) | _ => none)
   | .eq => "".intercalate (evs.map fun e => match e with | .eq b => s!" e={b01 b}{b01 (!b)}" | _ => "")
   | .look => "".intercalate (evs.map fun e => match e with
       | .look mn mx p o => s!" q={showD I.sh mn}/{showD I.sh mx}/{I.sh p.1}/{I.sh p.2}/{if I.osText then underscored o else "="}"
@@ -470,10 +473,11 @@ def showEvs {β δ γ : Type} (I : SInst β δ γ) (fmt : Fmt) (evs : List (Ev (
 /-- token by token: the whole line is `runScriptF` of the concatenated actions (the tape of an action is loaded
 into the replaying generator right before it) -/
 def runToks {β δ γ : Type} (I : SInst β δ γ) (ty : Ty) :
-    List (PTok β) → ObjsF δ → γ → String → String
+    List (PTok β) → ObjsF δ → γ × γ → String → String
   | [], _, _, acc => acc
   | t :: rest, s, g, acc =>
-    match runScriptF I.D I.out ty I.G t.acts s (I.feed g t.tape) with
+    -- the tape of an action is offered to both generators; only the one the action uses consumes it
+    match runScriptF I.D I.out ty I.G t.acts s (I.feed g.1 t.tape, I.feed g.2 t.tape) with
     | .ok r => runToks I ty rest r.2.1 r.2.2 (acc ++ showEvs I t.fmt r.1)
     | .error _ => "bad-op"
 
@@ -503,7 +507,9 @@ def opXS (t d seed : String) (toks : List String) : String :=
       match toks.mapM (parseTok String.toInt? okP (fun _ => 0) ty false) with
       | some ps =>
         if sd ≥ 4294967296 || ps.isEmpty then "bad-op"
-        else runToks sExact ty ps ObjsF.empty (basicPseudoSeed (fun s => s) (DVal.strong (.base sd))) "ok"
+        else runToks sExact ty ps ObjsF.empty
+          (basicPseudoSeed (fun s => s) (DVal.strong (.base sd)),
+           basicPseudoSeed (fun s => s) (DVal.strong (.base ((sd + secondSeedOffset) % 4294967296)))) "ok"
       | none => "bad-op"
     | none => "bad-op"
   | _, _ => "bad-op"
@@ -522,7 +528,7 @@ def opIS (t d eng seed : String) (toks : List String) : String :=
     match toks.mapM (parseTok rd okP zigzag ty true) with
     | some ps =>
       if !isEng eng || !seedOk eng sd || ps.isEmpty then "bad-op"
-      else runToks sInt ty ps ObjsF.empty [] "ok"
+      else runToks sInt ty ps ObjsF.empty ([], []) "ok"
     | none => "bad-op"
   | _, _, _ => "bad-op"
 
@@ -533,10 +539,10 @@ def opRS (kind t d eng seed : String) (toks : List String) : String :=
     match toks.mapM (parseTok rd (fun _ _ => true) id ty true) with
     | some ps =>
       if !isEng eng || !seedOk eng sd || (d ≠ "p" ∧ d ≠ "s") || ps.isEmpty then "bad-op"
-      else if kind = "ur" then runToks sReal ty ps ObjsF.empty [] "ok"
+      else if kind = "ur" then runToks sReal ty ps ObjsF.empty ([], []) "ok"
       else if kind = "no" then
         let inst := if bits = 32 then sNormal 4286578687 2139095039 else sNormal 18442240474082181119 9218868437227405311
-        runToks inst ty ps ObjsF.empty [] "ok"
+        runToks inst ty ps ObjsF.empty ([], []) "ok"
       else "bad-op"
     | none => "bad-op"
   | _, _, _ => "bad-op"
